@@ -736,7 +736,8 @@ int compatible_types (int t1, int t2) {
     return 1;
   if ((t2 == (TYPE_ANY | TYPE_MOD_ARRAY) && (t1 & TYPE_MOD_ARRAY)))
     return 1;
-  if (t1 & TYPE_MOD_CLASS)
+  /* a class type (on either side) is not an index into lpcc_compatible[] */
+  if ((t1 | t2) & TYPE_MOD_CLASS)
     return t1 == t2;
   if (t1 & TYPE_MOD_ARRAY)
     {
@@ -765,7 +766,8 @@ int compatible_types2 (int t1, int t2) {
     return 1;
   if ((t2 == (TYPE_ANY | TYPE_MOD_ARRAY) && (t1 & TYPE_MOD_ARRAY)))
     return 1;
-  if (t1 & TYPE_MOD_CLASS)
+  /* a class type (on either side) is not an index into lpcc_compatible[] */
+  if ((t1 | t2) & TYPE_MOD_CLASS)
     return t1 == t2;
   if (t1 & TYPE_MOD_ARRAY)
     {
